@@ -32,7 +32,7 @@ SITES = [
 ]
 REQUIRED_COUNTERS = (
     ["outcome.ok", "outcome.ValidationError", "parse.ok", "parse.hostile_schemas", "depth.judged", "parse.raw_hostile_titles", "parse.beyond_recursion_budget",
-     "value.huge_int", "value.extreme_float", "value.surrogate", "value.nul", "value.long_string"]
+     "value.huge_int", "value.int_beyond_str_limit", "huge.outcome.ValidationError", "value.extreme_float", "value.surrogate", "value.nul", "value.long_string"]
     + [f"site.{s}" for s in SITES]
 )
 
@@ -263,6 +263,14 @@ def hostile_literal(rng):
     return rng.choice([10 ** 400, -(10 ** 400), 2 ** 64, 1e308, 5e-324, 1e-320, 2 ** 53 + 1, 0, 1])
 
 
+# member names aimed at the name mapping: reserved names, and names that only BECOME a keyword or a reserved
+# name once Python normalises them (NFKC), starting with an ASCII letter or underscore so that no prefix saves them
+HOSTILE_MEMBER_NAMES = ["", "\x00", "__class__", "__dict__", "__weakref__", "a" * 300, "\ud800", "_dict", "é",
+                        "__doc__", "__module__", "mro", "c\u2113ass", "pa\u017fs", "i\uff46", "__\uff49nit__",
+                        "_d\u2071ct", "d\uff45fault", "\ufb01nally", "propertie\uff53", "__d\u2071ct__",
+                        "a\u02e2", "i\u207f", "o\u02b3", "n\u1d52t", "de\ua7f3", "__e\u1d60__", "__ha\u02e2h__"]
+
+
 def hostilify(rng, schema, depth=0):
     """Replace keyword literals by extreme ones, keeping metaschema validity."""
     if not isinstance(schema, dict) or depth > 6:
@@ -280,16 +288,14 @@ def hostilify(rng, schema, depth=0):
         elif key == "enum":
             out[key] = val
         elif key == "required" and rng.random() < 0.3:
-            out[key] = list(dict.fromkeys(val + [rng.choice(["", "\x00", "__class__", "__dict__", "a" * 300,
-                                                               "\ud800", "_dict", "é"])]))
+            out[key] = list(dict.fromkeys(val + [rng.choice(HOSTILE_MEMBER_NAMES)]))
         elif key == "title" and rng.random() < 0.3:
             out[key] = rng.choice(["", "!!!", "a" * 500, "\x00", "1", "None", "Object", "\ud800x", "é"])
         elif key in ("properties", "patternProperties", "dependencies", "definitions") and isinstance(val, dict):
             new = {}
             for name, sub in val.items():
                 if key == "properties" and rng.random() < 0.2:
-                    name = rng.choice(["", "\x00", "__class__", "__dict__", "__weakref__", "a" * 300, "\ud800",
-                                       "_dict", "é", "__doc__", "__module__", "mro"])
+                    name = rng.choice(HOSTILE_MEMBER_NAMES)
                 new[name] = hostilify(rng, sub, depth + 1) if isinstance(sub, dict) else sub
             out[key] = new
         elif isinstance(val, dict):
@@ -445,9 +451,56 @@ def raw_parser_calls(ctx, sut):
                                 {"not": schema} if wrap_kind == "not" else {"additionalProperties": schema})))
 
 
+HUGE_TOKEN = "\u00a7int-beyond-the-str-limit\u00a7"
+HUGE_SHAPES = [HUGE_TOKEN, [HUGE_TOKEN], {"a": HUGE_TOKEN}, [HUGE_TOKEN, HUGE_TOKEN], {"a": [1, HUGE_TOKEN]},
+               [1, "x", HUGE_TOKEN], {"id": HUGE_TOKEN}, {"a": {"id": HUGE_TOKEN}}, [[HUGE_TOKEN]]]
+
+
+def instantiate_huge(shape, sign=1):
+    """The recorded shape with the token replaced by an integer of more than 4300 digits (CPython refuses to
+    render those: `repr`, `str`, `format` and json all raise ValueError).  Cases are recorded with the
+    token, so the harness itself never renders the number."""
+    if shape == HUGE_TOKEN:
+        return sign * 10 ** 5000 + 7
+    if isinstance(shape, list):
+        return [instantiate_huge(member, sign) for member in shape]
+    if isinstance(shape, dict):
+        return {key: instantiate_huge(member, sign) for key, member in shape.items()}
+    return shape
+
+
+def beyond_str_limit(ctx, sut):
+    """Extreme numbers: integers which the interpreter cannot turn into text.  Whatever a site does with
+    such a value - accept it, reject it - the report of a rejection must still be the validation error."""
+    rng = ctx.rng
+    for idx in range(ctx.params.get("huge_calls", 400)):
+        site = SITES[idx % len(SITES)]
+        base_site = site
+        if site in ("composition_wrapped", "not_wrapped"):
+            base_site = rng.choice([s for s in SITES if not s.endswith("_wrapped")])
+        schema = wrap(rng, site_schema(rng, base_site), site)
+        try:
+            element = sut.parse_direct(schema)
+        except BaseException:  # pylint: disable=broad-except
+            continue
+        shape = HUGE_SHAPES[(idx // len(SITES)) % len(HUGE_SHAPES)]
+        sign = -1 if idx % 2 else 1
+        value = instantiate_huge(shape, sign)
+        ctx.evaluation()
+        ctx.count("value.int_beyond_str_limit")
+        outcome, _res, exc = sut.call(element, value)
+        ctx.count("huge.outcome." + outcome.replace("other:", "other_"))
+        if outcome in ("ok", "ValidationError", "TypeError"):
+            continue
+        ctx.witness("escape." + outcome, {"schema": schema, "value_shape": shape, "sign": sign, "site": "huge_" + site},
+                    f"{type(exc).__name__} escaped an element call on a value holding an integer of 5001 digits: "
+                    f"{exc!r}"[:400])
+
+
 def run_shard(ctx):
     from vlib import sut  # pylint: disable=import-outside-toplevel
 
+    beyond_str_limit(ctx, sut)
     sites(ctx, sut)
     parser_and_calls(ctx, sut)
     raw_parser_calls(ctx, sut)
@@ -457,6 +510,13 @@ def replay(case, ctx):
     from vlib import sut  # pylint: disable=import-outside-toplevel
 
     schema = case["schema"]
+    if str(case.get("site", "")).startswith("huge_"):
+        element = sut.parse_direct(schema)
+        ctx.evaluation()
+        outcome, _res, exc = sut.call(element, instantiate_huge(case["value_shape"], case.get("sign", 1)))
+        if outcome not in ("ok", "ValidationError", "TypeError"):
+            ctx.witness("escape." + outcome, case, f"{type(exc).__name__}: {exc!r}"[:300])
+        return
     if str(case.get("site", "")).startswith("deep_"):
         schema = {"type": "string"}
         for _ in range(case["depth"]):
